@@ -32,7 +32,10 @@ AddBlock ==
      IN par' = Append(par, IF w = 1 THEN n ELSE RandomElement(0..n))
   /\ UNCHANGED <<batches, cur, nresp, done>>
 
-Honest(s) == [i \in 1..Len(s) |-> [b |-> s[i], st |-> s[i]]]
+(* rl = 1: the header sent for b is RELINKED, i.e. a copy whose parent hash is the hash STATED *)
+(* for the previous entry (a forged hash and a child relinked to it cooperate: the response    *)
+(* looks hash-linked by its stated hashes although no header hashes to the stated value)       *)
+Honest(s) == [i \in 1..Len(s) |-> [b |-> s[i], st |-> s[i], rl |-> 0]]
 
 (* ascending piece of the branch ending at e, k blocks at most, no genesis *)
 Piece(e, k) ==
@@ -43,14 +46,18 @@ Piece(e, k) ==
 DropAt(s, i) == SubSeq(s, 1, i - 1) \o SubSeq(s, i + 1, Len(s))
 
 Damage(es) ==
-  LET kind == RandomElement(1..(6 + Z))
+  LET kind == RandomElement(1..(8 + Z))
       i == RandomElement(1..(Len(es) + Z))
       other == RandomElement(1..(NBlocks + Z))
   IN CASE kind = 1 -> [es EXCEPT ![i].st = -1]                               \* junk stated hash
        [] kind = 2 -> [es EXCEPT ![i].st = IF other = es[i].b THEN -1 ELSE other]  \* another block's hash
        [] kind = 3 -> IF Len(es) >= 3 THEN DropAt(es, 2) ELSE [es EXCEPT ![i].st = -1]  \* gap
-       [] kind = 4 -> IF other \in RespBlocks(es) THEN SFReverse(es) ELSE [es EXCEPT ![i] = [b |-> other, st |-> other]]  \* foreign block
+       [] kind = 4 -> IF other \in RespBlocks(es) THEN SFReverse(es) ELSE [es EXCEPT ![i] = [b |-> other, st |-> other, rl |-> 0]]  \* foreign block
        [] kind = 5 -> IF Len(es) >= 2 THEN SFReverse(es) ELSE <<>>           \* wrong order
+       [] kind \in {7, 8} -> IF Len(es) >= 2                                \* forged hash + relinked child
+                             THEN LET j == RandomElement(1..(Len(es) - 1 + Z))
+                                  IN [es EXCEPT ![j].st = -1, ![j + 1].rl = 1]
+                             ELSE [es EXCEPT ![i].st = -1]
        [] OTHER -> <<>>                                                      \* empty response
 
 RandResp ==
